@@ -19,7 +19,11 @@ static mjData* make_used(const mjModel* m, Rng& r, int steps) {
   mj_normalizeQuat(m, u->qpos);
   for (int i = 0; i < m->nu; i++) u->ctrl[i] = r.uniform(-1, 1);
   bool e = ND_GUARD({ for (int k = 0; k < steps; k++) mj_step(m, u); });
-  (void)e;
+  if (e) {   // mju_error is fatal for an instance (its stack is left in use): take a fresh one instead
+    nd::count("used_instance_discarded_after_mju_error");
+    mj_deleteData(u);
+    u = mu::make_data(m, r.next());
+  }
   return u;
 }
 
